@@ -1491,6 +1491,12 @@ class Crystal(object):
             closest2list = [x ** 2 if c != chem else -1. for c, x in enumerate(closestdistance)]
         else:
             closest2list = [closestdistance ** 2 if c != chem else -1. for c in range(self.Nchem)]
+        # an atom that comes within the requested distance of a jump lies within cutoff + distance of the jump's starting site:
+        # the cells searched for jump end points (cutoff only) do not reach that far when the distance is comparable to the cell
+        cmax = np.sqrt(max(closest2list))
+        if cmax > 0:
+            nmaxc = [int((cutoff + cmax) * np.sqrt(np.dot(self.invlatt[i], self.invlatt[i]))) + 1 for i in range(self.dim)]
+            supervect = [np.array(ntup) for ntup in itertools.product(*[range(-n, n + 1) for n in nmaxc])]
         for c, mindist2 in enumerate(closest2list):
             if mindist2 < 0:
                 # skip the negative distances; we still check 0 because straight line paths
